@@ -17,6 +17,12 @@ INT_TEMPLATES = [
     lambda X: is_(idx(S('abc'), bin_('%', X, I(3))), 'int'),
     lambda X: bin_('+', idx(('arr', (I(1), X)), I(1)), idx(('arr', (X, I(2))), I(0))),
     lambda X: call('twice', idx(('arr', (bin_('-', X, I(1)), call('look'))), I(0))),
+    # the right-hand side changes the global while the assignment is under way: `g += bump()` is g = g + bump()
+    # with g read first, `g = bump() + g` reads it afterwards
+    lambda X: call('bump'),
+    lambda X: bin_('+', X, call('bump')),
+    lambda X: bin_('+', call('bump'), X),
+    lambda X: bin_('-', bin_('*', X, I(2)), bin_('+', call('bump'), call('look'))),
 ]
 SPEC_TEMPLATES = [
     lambda X: ('spec', X, I(5)),
@@ -31,6 +37,12 @@ SPEC_TEMPLATES = [
     lambda X: ('spec', call('twice', X), bin_('*', X, I(2))),
     lambda X: ('spec', call('twice', X), bin_('+', call('look'), I(1))),
     lambda X: is_(('spec', bin_('>', X, I(3)), B(False)), 'int'),
+    # a plain variable on the left (nothing to compute), a computed value on the right
+    lambda X: ('spec', X, bin_('+', X, I(1))),
+    lambda X: ('spec', X, bin_('-', bin_('+', X, I(1)), I(1))),
+    lambda X: ('spec', X, bin_('*', call('look'), I(1))),
+    lambda X: ('spec', X, bin_('+', V('k'), I(1))),
+    lambda X: ('spec', V('k'), bin_('-', X, I(0))),
 ]
 STR_TEMPLATES = [
     lambda X: idx(('arr', (S('x'), X)), I(1)),
@@ -46,7 +58,7 @@ def jobs(spec):
     n = len(SPEC_TEMPLATES if spec else INT_TEMPLATES)
     for st in STORAGES:
         for t in range(n):
-            for form in ('set', 'aug'):
+            for form in ('set', 'aug', 'decl', 'arg'):
                 out.append(('int', st, t, form))
     if not spec:
         for st in STORAGES:
@@ -59,15 +71,23 @@ def program(job, spec):
     kind, st, t, form = job
     look = func('int', 'look', [], write(C('<')), write(V('g')), write(C('>')), ret(V('g')))
     twice = func('int', 'twice', [('int', 'a')], ret(bin_('*', V('a'), I(2))))
+    bump = func('int', 'bump', [], setv('g', bin_('+', bin_('*', V('g'), I(2)), I(1))), ret(I(1)))
     pick = func('string', 'pick', [('string', 'a'), ('string', 'b')], write(V('sg')), ret(V('b')))
-    glob = [decl('int', 'g', I(4)), decl('string', 'sg', S('old'))]
+    glob = [decl('int', 'g', I(4)), decl('int', 'k', I(4)), decl('string', 'sg', S('old'))]
     if kind == 'int':
         tmpl = (SPEC_TEMPLATES if spec else INT_TEMPLATES)[t]
         name = 'g' if st == 'global' else 'v'
         steps = []
         for rnd_ in range(3):
             e = tmpl(V(name))
-            steps.append(setv(name, e) if form == 'set' else aug('+', name, e))
+            if form == 'set':
+                steps.append(setv(name, e))
+            elif form == 'aug':
+                steps.append(aug('+', name, e))
+            elif form == 'decl':
+                steps += [decl('int', f'y{rnd_}', e), write(V(f'y{rnd_}')), write(C(':')), setv(name, bin_('+', V(name), I(1)))]
+            else:
+                steps += [write(call('twice', e)), write(C(':')), setv(name, bin_('+', V(name), I(1)))]
             steps += [write(V(name)), write(C(';')), write(V('g')), write(C(' '))]
         if st == 'global':
             body = steps
@@ -92,4 +112,4 @@ def program(job, spec):
         else:
             fs = [func('empty', 'work', [('string', 'w')], *steps)]
             body = [ex(call('work', S('par')))]
-    return prog(glob, [look, twice, pick] + fs + [func('empty', '@is_you', [('int', 'q')], *body)]), ['4']
+    return prog(glob, [look, twice, bump, pick] + fs + [func('empty', '@is_you', [('int', 'q')], *body)]), ['4']
